@@ -1,1 +1,480 @@
 // Kani contract harnesses for /repo/arrow-ipc/src/writer.rs (child module: sees private items via super::)
+use super::*;
+#[path = "/verif/kani/support/spec.rs"]
+mod spec;
+use spec::*;
+use ::std::io::Error as IoError;
+
+// ------------------------------------------------------------------------------------------------
+// scalar layout helpers
+// ------------------------------------------------------------------------------------------------
+
+// Contract (C04): pad_to_alignment(alignment, len) for every alignment IpcWriteOptions accepts
+// (8, 16, 32, 64) and every len <= 2^63: the padding r is < alignment and len + r is a multiple of
+// alignment (hence r is the minimal such padding). Kani pair of the Verus unit
+// verus.arrow-ipc.writer.pad_to_alignment (same contract, different tool).
+// @unit name=pad_to_alignment_pair props=C04 kind=complete fns=pad_to_alignment
+#[kani::proof]
+fn pad_to_alignment_pair() {
+    let alignment: u8 = kani::any();
+    let len: usize = kani::any();
+    kani::assume(alignment == 8 || alignment == 16 || alignment == 32 || alignment == 64);
+    kani::assume(len <= 1usize << 63);
+    let r = pad_to_alignment(alignment, len);
+    assert!(r < alignment as usize);
+    let total = len as u128 + r as u128;
+    // modulus by each constant separately (a symbolic 64-bit divisor is out of the solver's reach)
+    let rem = match alignment {
+        8 => total % 8,
+        16 => total % 16,
+        32 => total % 32,
+        _ => total % 64,
+    };
+    assert!(rem == 0);
+    kani::cover!(alignment == 8 && r == 7);
+    kani::cover!(alignment == 64 && r == 63);
+    kani::cover!(r == 0 && len > 0);
+    kani::cover!(len == 1usize << 63);
+}
+
+fn opts(alignment: u8, legacy: bool, v5: bool) -> IpcWriteOptions {
+    IpcWriteOptions {
+        alignment,
+        write_legacy_ipc_format: legacy,
+        metadata_version: if v5 { crate::MetadataVersion::V5 } else { crate::MetadataVersion::V4 },
+        batch_compression_type: None,
+        batch_compression_level: None,
+        dictionary_handling: DictionaryHandling::default(),
+    }
+}
+
+// Contract (C04): MetadataLayout::new(metadata_len, options) — the framing arithmetic of every IPC
+// message — for alignment in {8,16,32,64}, both prefix sizes (legacy 4 bytes / continuation 8 bytes)
+// and every metadata_len <= 2^40: prefix + metadata + padding is a multiple of the alignment,
+// padded_header_len == prefix + padded_metadata_len, padded_metadata_len == metadata_len +
+// metadata_padding, and the padding is minimal (< alignment).
+// @unit name=metadata_layout props=C04 kind=complete fns=MetadataLayout::new
+#[kani::proof]
+fn metadata_layout() {
+    let alignment: u8 = kani::any();
+    kani::assume(alignment == 8 || alignment == 16 || alignment == 32 || alignment == 64);
+    let legacy: bool = kani::any();
+    let o = opts(alignment, legacy, !legacy && kani::any());
+    let metadata_len: usize = kani::any();
+    kani::assume(metadata_len <= 1usize << 40);
+    let l = MetadataLayout::new(metadata_len, &o);
+    let prefix = if legacy { 4 } else { 8 };
+    assert!(l.padded_header_len == prefix + l.padded_metadata_len);
+    assert!(l.padded_metadata_len == metadata_len + l.metadata_padding);
+    assert!(l.metadata_padding < alignment as usize);
+    let rem = match alignment {
+        8 => l.padded_header_len % 8,
+        16 => l.padded_header_len % 16,
+        32 => l.padded_header_len % 32,
+        _ => l.padded_header_len % 64,
+    };
+    assert!(rem == 0);
+    kani::cover!(legacy && l.metadata_padding == 0);
+    kani::cover!(!legacy && l.metadata_padding == 63);
+    std::mem::forget(o);
+}
+
+// Contract (C04): get_buffer_element_width(spec) is the byte width of a FixedWidth spec and 0 for
+// every other spec (truth table over the four BufferSpec variants, all widths/alignments).
+// @unit name=buffer_element_width_table props=C04 kind=complete fns=get_buffer_element_width
+#[kani::proof]
+fn buffer_element_width_table() {
+    let w: usize = kani::any();
+    let al: usize = kani::any();
+    assert!(get_buffer_element_width(&BufferSpec::FixedWidth { byte_width: w, alignment: al }) == w);
+    assert!(get_buffer_element_width(&BufferSpec::VariableWidth) == 0);
+    assert!(get_buffer_element_width(&BufferSpec::BitMap) == 0);
+    assert!(get_buffer_element_width(&BufferSpec::AlwaysNull) == 0);
+    kani::cover!(w == 16);
+}
+
+// Contract (C04): buffer_need_truncate(array_offset, buffer, spec, min_length) <=> spec is not
+// AlwaysNull /\ (array_offset != 0 \/ min_length < buffer.len()), for every spec variant, every
+// array_offset / min_length and buffers of every length 0..=16 (a window of a 16-byte allocation).
+// @unit name=buffer_need_truncate_table props=C04 kind=bounded bound=buffer_len<=16_everything_else_symbolic fns=buffer_need_truncate
+#[kani::proof]
+fn buffer_need_truncate_table() {
+    let store = [0u8; 16];
+    let blen: usize = kani::any();
+    kani::assume(blen <= 16);
+    let buffer = Buffer::from_slice_ref(&store).slice_with_length(0, blen);
+    let which: u8 = kani::any();
+    kani::assume(which < 4);
+    let spec = match which {
+        0 => BufferSpec::FixedWidth { byte_width: kani::any(), alignment: kani::any() },
+        1 => BufferSpec::VariableWidth,
+        2 => BufferSpec::BitMap,
+        _ => BufferSpec::AlwaysNull,
+    };
+    let array_offset: usize = kani::any();
+    let min_length: usize = kani::any();
+    let r = buffer_need_truncate(array_offset, &buffer, &spec, min_length);
+    assert!(r == (which != 3 && (array_offset != 0 || min_length < blen)));
+    kani::cover!(r && which == 0 && array_offset == 0);
+    kani::cover!(!r && which == 3 && array_offset != 0);
+    kani::cover!(!r && which == 1);
+}
+
+// ------------------------------------------------------------------------------------------------
+// framing helpers over a nondeterministic sink (C18 / C04)
+// ------------------------------------------------------------------------------------------------
+
+/// A std::io::Write sink that records what it accepted and may fail at any call with a non-retryable
+/// error. SHORT = true: every successful call accepts exactly one byte (the worst case of a short
+/// write: std's write_all has to loop); SHORT = false: a successful call accepts the whole slice.
+struct NondetSink<const SHORT: bool> {
+    got: [u8; 96],
+    n: usize,
+    failed: bool,
+    calls: usize,
+}
+impl<const SHORT: bool> NondetSink<SHORT> {
+    fn new() -> Self { NondetSink { got: [0xAA; 96], n: 0, failed: false, calls: 0 } }
+}
+impl<const SHORT: bool> std::io::Write for NondetSink<SHORT> {
+    fn write(&mut self, buf: &[u8]) -> std::io::Result<usize> {
+        self.calls += 1;
+        if kani::any() {
+            self.failed = true;
+            return Err(IoError::from(std::io::ErrorKind::Other));
+        }
+        let k = if SHORT { 1 } else { buf.len() };
+        self.got[self.n..self.n + k].copy_from_slice(&buf[..k]);
+        self.n += k;
+        Ok(k)
+    }
+    fn flush(&mut self) -> std::io::Result<()> { Ok(()) }
+}
+
+/// The general sink: a successful call accepts any number k of bytes with 1 <= k <= offered (arbitrary
+/// short writes; 0 is excluded because std's write_all turns it into WriteZero), any call may fail.
+struct AnyShortSink {
+    got: [u8; 16],
+    n: usize,
+    failed: bool,
+    calls: usize,
+}
+impl std::io::Write for AnyShortSink {
+    fn write(&mut self, buf: &[u8]) -> std::io::Result<usize> {
+        self.calls += 1;
+        if kani::any() {
+            self.failed = true;
+            return Err(IoError::from(std::io::ErrorKind::Other));
+        }
+        let k: usize = kani::any();
+        kani::assume(k >= 1 && k <= buf.len());
+        let mut i = 0;
+        while i < k {
+            self.got[self.n + i] = buf[i];
+            i += 1;
+        }
+        self.n += k;
+        Ok(k)
+    }
+    fn flush(&mut self) -> std::io::Result<()> { Ok(()) }
+}
+
+/// stub for the io::Error -> ArrowError conversion: the error *message* is not part of any contract
+/// (the real conversion renders the message with Display, which drags the formatting machinery in)
+fn stub_io_to_arrow(error: std::io::Error) -> ArrowError { ArrowError::IoError(String::new(), error) }
+
+// Contract (C04, C18): write_continuation(options, metadata_len) on a sink that may short-write and
+// may fail: returns Ok exactly when the sink never failed; on Ok the sink received exactly
+//   [0xFF,0xFF,0xFF,0xFF] ++ le32(metadata_len)        (V5, or V4 non-legacy: 8 bytes)
+//   le32(metadata_len)                                  (V4 legacy: 4 bytes)
+// and nothing else; on Err what the sink received is a strict prefix of those bytes (no byte is
+// reordered, duplicated or invented), and no further write is attempted after the failure.
+// Stubs: alloc::fmt::format; <ArrowError as From<io::Error>>::from (message rendering only).
+// @unit name=write_continuation_sink props=C04,C18 kind=complete fns=IpcMessageSinkExt::write_continuation,IpcMessageSink::write_slice timeout=900 mem=4
+#[kani::proof]
+#[kani::unwind(10)]
+#[kani::stub(alloc::fmt::format, stub_format)]
+#[kani::stub(<arrow_schema::ArrowError as core::convert::From<IoError>>::from, stub_io_to_arrow)]
+fn write_continuation_sink() {
+    let legacy: bool = kani::any();
+    let v5 = !legacy && kani::any();
+    let o = opts(64, legacy, v5);
+    let metadata_len: i32 = kani::any();
+    let mut sink = AnyShortSink { got: [0xAA; 16], n: 0, failed: false, calls: 0 };
+    let r = sink.write_continuation(&o, metadata_len);
+    let le = metadata_len.to_le_bytes();
+    let expect: [u8; 8] = if legacy { [le[0], le[1], le[2], le[3], 0xAA, 0xAA, 0xAA, 0xAA] } else { [0xFF, 0xFF, 0xFF, 0xFF, le[0], le[1], le[2], le[3]] };
+    let total = if legacy { 4 } else { 8 };
+    assert!(r.is_ok() == !sink.failed);
+    if r.is_ok() { assert!(sink.n == total); } else { assert!(sink.n < total); }
+    let mut i = 0;
+    while i < 8 {
+        if i < sink.n { assert!(sink.got[i] == expect[i]); } else { assert!(sink.got[i] == 0xAA); }
+        i += 1;
+    }
+    kani::cover!(r.is_ok() && legacy);
+    kani::cover!(r.is_ok() && !legacy && sink.calls > 1);
+    kani::cover!(r.is_err() && sink.n == 3);
+    std::mem::forget(r);
+    std::mem::forget(o);
+}
+
+// Contract (C04, C18): write_padding(len) for every len <= 64 (PADDING holds 64 zero bytes; larger values
+// are a caller error and panic on the slice index: may-reject) hands exactly `len` zero bytes to the sink
+// — none when len == 0: the sink is not called at all — and returns Ok iff the sink did not fail; on
+// failure nothing was accepted.
+// @unit name=write_padding_sink props=C04,C18 kind=complete mayreject=1 fns=IpcMessageSinkExt::write_padding,IpcMessageSink::write_slice
+#[kani::proof]
+#[kani::unwind(4)]
+#[kani::stub(alloc::fmt::format, stub_format)]
+#[kani::stub(<arrow_schema::ArrowError as core::convert::From<IoError>>::from, stub_io_to_arrow)]
+fn write_padding_sink() {
+    let len: usize = kani::any();
+    let mut sink = NondetSink::<false>::new();
+    let r = sink.write_padding(len);
+    assert!(len <= 64);                     // reached only if the slice index did not reject
+    assert!(r.is_ok() == !sink.failed);
+    assert!(sink.n == if r.is_ok() { len } else { 0 });
+    assert!(sink.calls == if len == 0 { 0 } else { 1 });
+    let i: usize = kani::any();
+    kani::assume(i < 96);
+    assert!(sink.got[i] == if i < sink.n { 0 } else { 0xAA });
+    kani::cover!(r.is_ok() && len == 64);
+    kani::cover!(r.is_err());
+    kani::cover!(len == 0);
+    std::mem::forget(r);
+}
+
+// Contract (C04, C18): write_body_data(data, alignment) for alignment in {8,16,32,64} and a body of LEN
+// symbolic bytes: on a sink that never fails it returns Ok(total) with total == LEN + padding, total a
+// multiple of the alignment, and the sink received exactly data ++ zeros(padding) (so the returned
+// length is exactly the number of bytes handed to the sink); if the sink fails at any call the error is
+// returned (never Ok) and what the sink holds is a prefix of that byte string.
+macro_rules! write_body_data_sink {
+    ($name:ident, $len:expr) => {
+        #[kani::proof]
+        #[kani::unwind(4)]
+        #[kani::stub(alloc::fmt::format, stub_format)]
+        #[kani::stub(<arrow_schema::ArrowError as core::convert::From<IoError>>::from, stub_io_to_arrow)]
+        fn $name() {
+            const LEN: usize = $len;
+            let data: [u8; LEN] = kani::any();
+            let alignment: u8 = kani::any();
+            kani::assume(alignment == 8 || alignment == 16 || alignment == 32 || alignment == 64);
+            let mut sink = NondetSink::<false>::new();
+            let r = sink.write_body_data(data.to_vec(), alignment);
+            // least multiple of the alignment >= LEN, by constant divisors only
+            let padded = match alignment {
+                8 => (LEN + 7) / 8 * 8,
+                16 => (LEN + 15) / 16 * 16,
+                32 => (LEN + 31) / 32 * 32,
+                _ => (LEN + 63) / 64 * 64,
+            };
+            assert!(r.is_ok() == !sink.failed);
+            match &r {
+                Ok(total) => { assert!(*total == padded); assert!(sink.n == padded); }
+                Err(_) => assert!(sink.n == 0 || sink.n == LEN),
+            }
+            let i: usize = kani::any();
+            kani::assume(i < 96);
+            assert!(sink.got[i] == if i < sink.n { if i < LEN { data[i] } else { 0 } } else { 0xAA });
+            kani::cover!(r.is_ok() && alignment == 64);
+            kani::cover!(r.is_ok() && alignment == 8);
+            kani::cover!(r.is_err() && (LEN == 0 || LEN % 8 == 0 || sink.n == LEN));
+            std::mem::forget(r);
+        }
+    };
+}
+// @unit name=write_body_data_len5 props=C04,C18 kind=bounded bound=body_len=5 fns=IpcMessageSinkExt::write_body_data,IpcMessageSinkExt::write_padding,pad_to_alignment tier=thorough note=not_confirmed_at_checkpoint
+write_body_data_sink!(write_body_data_len5, 5);
+// @unit name=write_body_data_len16 props=C04,C18 kind=bounded bound=body_len=16 fns=IpcMessageSinkExt::write_body_data,IpcMessageSinkExt::write_padding,pad_to_alignment
+write_body_data_sink!(write_body_data_len16, 16);
+
+// ------------------------------------------------------------------------------------------------
+// slice re-basing helpers on ArrayData (built once with the unchecked constructor, only read, forgotten)
+// ------------------------------------------------------------------------------------------------
+
+/// monotone non-negative i32 offsets (the invariant of a valid variable-size array)
+fn any_offsets<const K: usize>(max: i32) -> [i32; K] {
+    let o: [i32; K] = kani::any();
+    kani::assume(o[0] >= 0 && o[K - 1] <= max);
+    let mut i = 1;
+    while i < K {
+        kani::assume(o[i - 1] <= o[i]);
+        i += 1;
+    }
+    o
+}
+fn binary_data(offs: &[i32; 4], bytes: &[u8; 6], off: usize, len: usize) -> ArrayData {
+    unsafe {
+        ArrayData::new_unchecked(
+            DataType::Binary,
+            len,
+            Some(0),
+            None,
+            off,
+            vec![Buffer::from_slice_ref(offs), Buffer::from_slice_ref(bytes)],
+            vec![],
+        )
+    }
+}
+
+// Contract (C04): reencode_offsets::<i32>(offsets, data) for a variable-size array whose physical
+// offsets buffer has 4 entries (symbolic, monotone, >= 0) viewed through the slice (OFF, LEN) of the
+// instance: the returned offsets have exactly LEN+1 entries, start at 0 and new[i] == old[OFF+i] −
+// old[OFF]; the returned (start, len) == (old[OFF], old[OFF+LEN] − old[OFF]) — so child/value data
+// sliced with (start, len) and indexed with the new offsets denotes the same element ranges.
+macro_rules! reencode_i32 {
+    ($name:ident, $off:expr, $len:expr, $zero:expr) => {
+        #[kani::proof]
+        #[kani::unwind(8)]
+        #[kani::stub(alloc::fmt::format, stub_format)]
+        fn $name() {
+            const OFF: usize = $off;
+            const LEN: usize = $len;
+            let offs = any_offsets::<4>(i32::MAX);
+            // one harness per code path (first offset of the slice == 0: zero-copy window; != 0: re-encoded
+            // copy) so that the returned buffer is a concrete allocation for the solver
+            kani::assume((offs[OFF] == 0) == $zero);
+            let bytes = [0u8; 6];
+            let data = binary_data(&offs, &bytes, OFF, LEN);
+            let (new, start, len) = reencode_offsets::<i32>(&data.buffers()[0], &data);
+            let n: &[i32] = new.typed_data::<i32>();
+            assert!(n.len() == LEN + 1);
+            assert!(n[0] == 0);
+            let mut i = 0;
+            while i <= LEN {
+                assert!(n[i] == offs[OFF + i] - offs[OFF]);
+                i += 1;
+            }
+            assert!(start == offs[OFF] as usize);
+            assert!(len == (offs[OFF + LEN] - offs[OFF]) as usize);
+            kani::cover!(LEN == 0 || offs[OFF + LEN] > offs[OFF]);
+            kani::cover!(offs[OFF + LEN] == i32::MAX);
+            std::mem::forget(data);
+        }
+    };
+}
+// @unit name=reencode_i32_0_3_copy props=C04 kind=bounded bound=physical_offsets=4_slice=(0,3)_first_offset!=0 fns=reencode_offsets tier=thorough timeout=900 mem=6 note=not_confirmed_at_checkpoint
+reencode_i32!(reencode_i32_0_3_copy, 0, 3, false);
+// @unit name=reencode_i32_1_2_copy props=C04 kind=bounded bound=physical_offsets=4_slice=(1,2)_first_offset!=0 fns=reencode_offsets tier=thorough timeout=900 mem=6 note=not_confirmed_at_checkpoint
+reencode_i32!(reencode_i32_1_2_copy, 1, 2, false);
+// @unit name=reencode_i32_1_2_zero props=C04 kind=bounded bound=physical_offsets=4_slice=(1,2)_first_offset==0 fns=reencode_offsets tier=thorough timeout=900 mem=6 note=not_confirmed_at_checkpoint
+reencode_i32!(reencode_i32_1_2_zero, 1, 2, true);
+// @unit name=reencode_i32_2_1_copy props=C04 kind=bounded bound=physical_offsets=4_slice=(2,1)_first_offset!=0 fns=reencode_offsets tier=thorough timeout=900 mem=6 note=not_confirmed_at_checkpoint
+reencode_i32!(reencode_i32_2_1_copy, 2, 1, false);
+// @unit name=reencode_i32_2_0_copy props=C04 kind=bounded bound=physical_offsets=4_slice=(2,0)_first_offset!=0 fns=reencode_offsets tier=thorough timeout=900 mem=6 note=not_confirmed_at_checkpoint
+reencode_i32!(reencode_i32_2_0_copy, 2, 0, false);
+// @unit name=reencode_i32_0_3_zero props=C04 kind=bounded bound=physical_offsets=4_slice=(0,3)_first_offset==0 fns=reencode_offsets tier=thorough timeout=900 mem=6 note=not_confirmed_at_checkpoint
+reencode_i32!(reencode_i32_0_3_zero, 0, 3, true);
+
+// same contract for 64-bit offsets (LargeBinary / LargeList)
+// @unit name=reencode_i64_1_2 props=C04 kind=bounded bound=physical_offsets=4_slice=(1,2)_first_offset!=0 fns=reencode_offsets tier=thorough timeout=900 mem=6 note=not_confirmed_at_checkpoint
+#[kani::proof]
+#[kani::unwind(8)]
+#[kani::stub(alloc::fmt::format, stub_format)]
+fn reencode_i64_1_2() {
+    const OFF: usize = 1;
+    const LEN: usize = 2;
+    let offs: [i64; 4] = kani::any();
+    kani::assume(offs[0] >= 0 && offs[0] <= offs[1] && offs[1] <= offs[2] && offs[2] <= offs[3]);
+    kani::assume(offs[OFF] != 0);                 // re-encoding path (the zero-copy path is type-independent)
+    let data = unsafe {
+        ArrayData::new_unchecked(DataType::LargeBinary, LEN, Some(0), None, OFF, vec![Buffer::from_slice_ref(&offs), Buffer::from_slice_ref(&[0u8; 2])], vec![])
+    };
+    let (new, start, len) = reencode_offsets::<i64>(&data.buffers()[0], &data);
+    let n: &[i64] = new.typed_data::<i64>();
+    assert!(n.len() == LEN + 1);
+    let mut i = 0;
+    while i <= LEN {
+        assert!(n[i] == offs[OFF + i] - offs[OFF]);
+        i += 1;
+    }
+    assert!(start == offs[OFF] as usize && len == (offs[OFF + LEN] - offs[OFF]) as usize);
+    kani::cover!(offs[OFF] > i32::MAX as i64 && offs[OFF + LEN] > offs[OFF]);
+    std::mem::forget(data);
+}
+
+// Contract (C04): get_byte_array_buffers::<i32>(data) on a Binary array with 3 physical rows (4 symbolic
+// monotone offsets into 6 symbolic bytes) seen through the slice (OFF, LEN): the returned
+// [offsets', values'] denote exactly the byte strings of the slice — offsets' has LEN+1 entries starting
+// at 0, values' has offsets'[LEN] bytes, and for every row i,
+// values'[offsets'[i]..offsets'[i+1]] == bytes[old[OFF+i]..old[OFF+i+1]]; bytes sliced away are not
+// carried. An empty slice is encoded with the single offset 0 and no value bytes.
+macro_rules! byte_array_buffers {
+    ($name:ident, $off:expr, $len:expr, $zero:expr) => {
+        #[kani::proof]
+        #[kani::unwind(9)]
+        #[kani::stub(alloc::fmt::format, stub_format)]
+        fn $name() {
+            const OFF: usize = $off;
+            const LEN: usize = $len;
+            let offs = any_offsets::<4>(6);
+            kani::assume((offs[OFF] == 0) == $zero);          // one harness per code path, as for reencode_offsets
+            let bytes: [u8; 6] = kani::any();
+            let data = binary_data(&offs, &bytes, OFF, LEN);
+            let [o, v] = get_byte_array_buffers::<i32>(&data);
+            let n: &[i32] = o.typed_data::<i32>();
+            assert!(n.len() == LEN + 1);
+            assert!(n[0] == 0);
+            assert!(v.len() == n[LEN] as usize);
+            let mut i = 0;
+            while i < LEN {
+                let (a, b) = (offs[OFF + i] as usize, offs[OFF + i + 1] as usize);
+                assert!(n[i] <= n[i + 1]);
+                assert!((n[i + 1] - n[i]) as usize == b - a);
+                let j: usize = kani::any();
+                if j < b - a { assert!(v.as_slice()[n[i] as usize + j] == bytes[a + j]); }
+                i += 1;
+            }
+            kani::cover!(LEN == 0 || offs[OFF + LEN] - offs[OFF] >= 2);
+            kani::cover!(LEN < 2 || (offs[OFF + 1] > offs[OFF] && offs[OFF + 2] > offs[OFF + 1]));
+            std::mem::forget(data);
+        }
+    };
+}
+// @unit name=byte_array_buffers_0_3_zero props=C04 kind=bounded bound=rows=3_value_bytes=6_slice=(0,3)_first_offset==0 fns=get_byte_array_buffers,reencode_offsets tier=thorough timeout=900 mem=6 note=not_confirmed_at_checkpoint
+byte_array_buffers!(byte_array_buffers_0_3_zero, 0, 3, true);
+// @unit name=byte_array_buffers_1_2_copy props=C04 kind=bounded bound=rows=3_value_bytes=6_slice=(1,2)_first_offset!=0 fns=get_byte_array_buffers,reencode_offsets tier=thorough timeout=900 mem=6 note=not_confirmed_at_checkpoint
+byte_array_buffers!(byte_array_buffers_1_2_copy, 1, 2, false);
+// @unit name=byte_array_buffers_2_1_copy props=C04 kind=bounded bound=rows=3_value_bytes=6_slice=(2,1)_first_offset!=0 fns=get_byte_array_buffers,reencode_offsets tier=thorough timeout=900 mem=6 note=not_confirmed_at_checkpoint
+byte_array_buffers!(byte_array_buffers_2_1_copy, 2, 1, false);
+// @unit name=byte_array_buffers_2_0_empty props=C04 kind=bounded bound=rows=3_value_bytes=6_slice=(2,0)_empty fns=get_byte_array_buffers tier=thorough timeout=900 mem=6 note=not_confirmed_at_checkpoint
+byte_array_buffers!(byte_array_buffers_2_0_empty, 2, 0, false);
+
+// Contract (C04): get_or_truncate_buffer(data) on an Int32 array with 4 physical values seen through the
+// slice (OFF, LEN): the returned buffer holds exactly the slice's elements — LEN*4 bytes equal to the
+// little-endian encoding of store[OFF..OFF+LEN] — values sliced away are not carried.
+macro_rules! truncate_i32 {
+    ($name:ident, $off:expr, $len:expr) => {
+        #[kani::proof]
+        #[kani::unwind(8)]
+        #[kani::stub(alloc::fmt::format, stub_format)]
+        fn $name() {
+            const OFF: usize = $off;
+            const LEN: usize = $len;
+            let store: [i32; 4] = kani::any();
+            let data = unsafe {
+                ArrayData::new_unchecked(DataType::Int32, LEN, Some(0), None, OFF, vec![Buffer::from_slice_ref(&store)], vec![])
+            };
+            let b = get_or_truncate_buffer(&data);
+            assert!(b.len() == LEN * 4);
+            let t: &[i32] = b.typed_data::<i32>();
+            let mut i = 0;
+            while i < LEN {
+                assert!(t[i] == store[OFF + i]);
+                i += 1;
+            }
+            kani::cover!(true);
+            std::mem::forget(data);
+        }
+    };
+}
+// @unit name=truncate_i32_0_4 props=C04 kind=bounded bound=physical_values=4_slice=(0,4) fns=get_or_truncate_buffer,buffer_need_truncate,get_buffer_element_width tier=thorough timeout=900 mem=6 note=not_confirmed_at_checkpoint
+truncate_i32!(truncate_i32_0_4, 0, 4);
+// @unit name=truncate_i32_0_2 props=C04 kind=bounded bound=physical_values=4_slice=(0,2) fns=get_or_truncate_buffer,buffer_need_truncate,get_buffer_element_width tier=thorough timeout=900 mem=6 note=not_confirmed_at_checkpoint
+truncate_i32!(truncate_i32_0_2, 0, 2);
+// @unit name=truncate_i32_1_2 props=C04 kind=bounded bound=physical_values=4_slice=(1,2) fns=get_or_truncate_buffer,buffer_need_truncate,get_buffer_element_width tier=thorough timeout=900 mem=6
+truncate_i32!(truncate_i32_1_2, 1, 2);
+// @unit name=truncate_i32_2_2 props=C04 kind=bounded bound=physical_values=4_slice=(2,2) fns=get_or_truncate_buffer,buffer_need_truncate,get_buffer_element_width tier=thorough timeout=900 mem=6 note=not_confirmed_at_checkpoint
+truncate_i32!(truncate_i32_2_2, 2, 2);
